@@ -1,29 +1,43 @@
 import GlmVerif.Core.Expr
 import Init.Grind.Ring.CommSolver
 /-!
-Reflective comparison of polynomial expressions (Mathlib-free, so the driver
-runs it natively too).  Soundness is `Glm.polyEq_sound` in `Sem/PolyReflect`.
+Reflective comparison of expressions as polynomials / rational functions over
+*atoms* (Mathlib-free, so the driver runs it natively too).
+
+Every sub-term that is not `+ - * neg` or an integer literal is an atom: a
+variable, but also `sqrt (…)`, `cos x`, a quotient `a / b` (for `polyEq`), a
+type constant.  Two expressions with the same normal form over their atoms are
+equal in every semantics whose `+ - * neg` are those of a commutative ring —
+soundness is `Glm.polyEq_sound` in `Sem/PolyReflect`.  The normaliser is the one
+shipped with Lean core for `grind` (`Lean.Grind.CommRing.Expr.toPoly`), whose
+correctness is proved there.
 -/
 namespace Glm
 open Lean.Grind.CommRing (Expr)
 
-def E.toG : E → Expr
-  | .var i => .var i
-  | .lit n _ => .intCast n
-  | .add a b => .add a.toG b.toG
-  | .sub a b => .sub a.toG b.toG
-  | .mul a b => .mul a.toG b.toG
-  | .neg a => .neg a.toG
-  | _ => .num 0
+def insertNew (l : List E) (x : E) : List E := if l.contains x then l else l ++ [x]
 
-def E.maxVar : E → Nat
-  | .var i => i
-  | .add a b | .sub a b | .mul a b => max a.maxVar b.maxVar
-  | .neg a => a.maxVar
-  | _ => 0
+/-- atom occurrences of an expression seen as a polynomial -/
+def E.atoms : E → List E
+  | .add a b | .sub a b | .mul a b => a.atoms ++ b.atoms
+  | .neg a => a.atoms
+  | .lit n d => if d == 1 then [] else [.lit n d]
+  | e => [e]
 
-/-- decidable check: both sides are polynomial expressions with the same normal form -/
-def polyEq (a b : E) : Bool := a.isPoly && b.isPoly && (a.toG.toPoly == b.toG.toPoly)
+def atomTable (es : List E) : List E := (es.flatMap E.atoms).foldl insertNew []
+
+def E.toGA (atoms : List E) : E → Expr
+  | .add a b => .add (a.toGA atoms) (b.toGA atoms)
+  | .sub a b => .sub (a.toGA atoms) (b.toGA atoms)
+  | .mul a b => .mul (a.toGA atoms) (b.toGA atoms)
+  | .neg a => .neg (a.toGA atoms)
+  | .lit n d => if d == 1 then .intCast n else .var (atoms.idxOf (.lit n d))
+  | e => .var (atoms.idxOf e)
+
+/-- decidable check: same normal form as polynomials over the common atom table -/
+def polyEq (a b : E) : Bool :=
+  let atoms := atomTable [a, b]
+  (a.toGA atoms).toPoly == (b.toGA atoms).toPoly
 
 /-- left-nested sum of a list of expressions -/
 def sumE : List E → E
@@ -31,7 +45,13 @@ def sumE : List E → E
   | [a] => a
   | a :: as => .add a (sumE as)
 
-/-- every output `j < n` of `u` is a decision-free polynomial with the same normal form as `spec j` -/
+/-- `a = b` follows from the hypotheses `l_i = r_i` with polynomial multipliers `c_i`:
+    `a - b = Σ c_i * (l_i - r_i)` as polynomials over the atoms -/
+def polyEqMod (hyps : List (E × E)) (cert : List E) (a b : E) : Bool :=
+  hyps.length == cert.length &&
+  polyEq (.sub a b) (sumE ((hyps.zip cert).map fun (h, c) => .mul c (.sub h.1 h.2)))
+
+/-- every output `j < n` of `u` is decision-free with the same normal form as `spec j` -/
 def Unit.polyAgrees (u : Unit) (n : Nat) (spec : Nat → E) : Bool :=
   u.outs.length == n && (List.range n).all fun j =>
     match u.out j with
@@ -42,42 +62,41 @@ def Unit.polyAgrees (u : Unit) (n : Nat) (spec : Nat → E) : Bool :=
 def Unit.synAgrees (u : Unit) (n : Nat) (spec : Nat → E) : Bool :=
   u.outs.length == n && (List.range n).all fun j => u.out j == .leaf (spec j)
 
-end Glm
-
-namespace Glm
 /-! ### rational functions: numerator / denominator normal form -/
 
-/-- the rational fragment: `+ - * / neg`, variables and literals with non-zero denominator -/
-def E.isRat : E → Bool
-  | .var _ => true
+/-- literal denominators are non-zero (the only syntactic requirement of the rational reflection) -/
+def E.litsOK : E → Bool
   | .lit _ d => d != 0
-  | .add a b | .sub a b | .mul a b | .div a b => a.isRat && b.isRat
-  | .neg a => a.isRat
-  | _ => false
+  | .add a b | .sub a b | .mul a b | .div a b => a.litsOK && b.litsOK
+  | .neg a => a.litsOK
+  | _ => true
 
 def mulE (a b : E) : E := if b == .lit 1 1 then a else if a == .lit 1 1 then b else .mul a b
 
-/-- numerator and denominator, both in the polynomial fragment -/
+/-- numerator and denominator; sub-terms outside `+ - * / neg` stay atoms of the numerator -/
 def E.frac : E → E × E
-  | .var i => (.var i, .lit 1 1)
   | .lit n d => (.lit n 1, .lit d 1)
   | .add a b => (.add (mulE a.frac.1 b.frac.2) (mulE b.frac.1 a.frac.2), mulE a.frac.2 b.frac.2)
   | .sub a b => (.sub (mulE a.frac.1 b.frac.2) (mulE b.frac.1 a.frac.2), mulE a.frac.2 b.frac.2)
   | .mul a b => (mulE a.frac.1 b.frac.1, mulE a.frac.2 b.frac.2)
   | .div a b => (mulE a.frac.1 b.frac.2, mulE a.frac.2 b.frac.1)
   | .neg a => (.neg a.frac.1, a.frac.2)
-  | _ => (.lit 0 1, .lit 1 1)
+  | e => (e, .lit 1 1)
 
-/-- every sub-expression that is used as a divisor -/
+/-- every sub-expression that is used as a divisor (not looking inside atoms) -/
 def E.divisors : E → List E
   | .add a b | .sub a b | .mul a b => a.divisors ++ b.divisors
   | .div a b => b :: (a.divisors ++ b.divisors)
   | .neg a => a.divisors
   | _ => []
 
-/-- equal as rational functions (cross-multiplied polynomial identity) -/
+/-- equal as rational functions over the atoms (cross-multiplied polynomial identity) -/
 def fracEq (a b : E) : Bool :=
-  a.isRat && b.isRat && polyEq (.mul a.frac.1 b.frac.2) (.mul b.frac.1 a.frac.2)
+  a.litsOK && b.litsOK && polyEq (.mul a.frac.1 b.frac.2) (.mul b.frac.1 a.frac.2)
+
+/-- equal as rational functions modulo polynomial hypotheses on the atoms -/
+def fracEqMod (hyps : List (E × E)) (cert : List E) (a b : E) : Bool :=
+  a.litsOK && b.litsOK && polyEqMod hyps cert (.mul a.frac.1 b.frac.2) (.mul b.frac.1 a.frac.2)
 
 /-- `d` is, as a rational function, one of the allowed divisors -/
 def divisorAllowed (allowed : List E) (d : E) : Bool := allowed.any fun a => fracEq d a
